@@ -7,9 +7,12 @@ import (
 	"regexp"
 	"runtime"
 	"sort"
+	"strings"
 
 	"vsym/exec"
 )
+
+func vexecSetup() { exec.SetupProcessEnv() }
 
 func main() {
 	var opt exec.Options
@@ -25,8 +28,31 @@ func main() {
 	flag.StringVar(&opt.Tier, "tier", "quick", "quick|thorough")
 	flag.StringVar(&opt.SolverLog, "smtlog", "", "prefix for solver transcripts")
 	pat := flag.String("run", ".", "regexp of harness names")
+	verif := flag.String("verif", "/verif", "verif directory")
+	seed := flag.Int64("seed", 0, "seed (sampling only)")
+	params := flag.String("p", "", "harness params: name=value,...")
 	flag.Parse()
 	opt.Params = map[string]int{}
+	for _, kv := range strings.Split(*params, ",") {
+		if i := strings.Index(kv, "="); i > 0 {
+			var v int
+			fmt.Sscan(kv[i+1:], &v)
+			opt.Params[kv[:i]] = v
+		}
+	}
+	vexecSetup()
+	if flag.NArg() >= 1 {
+		switch flag.Arg(0) {
+		case "check":
+			if flag.NArg() < 2 {
+				fmt.Fprintln(os.Stderr, "usage: vsym [flags] check <property>")
+				os.Exit(2)
+			}
+			os.Exit(runCheck(opt, flag.Arg(1), *seed, *verif))
+		case "replay":
+			os.Exit(runReplay(opt, flag.Arg(1), *verif))
+		}
+	}
 	eng, err := exec.Load(opt)
 	if err != nil {
 		fmt.Fprintln(os.Stderr, err)
